@@ -2,7 +2,9 @@
 Proof: coq/props/Properties_C16.v (invariant of the Event LTS: any number of Add/Done threads, waiters of every kind,
        attached / consumed futures; all schedules).
 Tie:   the real yaclib::WaitGroup<> / OneShotEvent run on the FIBER backend under the schedule explorer (exhaustive DFS
-       for the small programs, seeded random walks for 3 workers + 3 waiters of mixed kinds); every distinct trace is
+       for the small programs, each once with the fiber switch offered before every wrapped operation and once with the
+       switch offered after it; seeded random walks, switch at both places, for 3 workers + 3 waiters of mixed kinds);
+       every distinct trace is
        mapped token by token to model events (with the observed values) and replayed through Event.run inside Coq;
        the model must accept every event and predict the observed releases, timeouts, destructions and values.
 Oracle (property text only) runs inside the harness on every execution."""
@@ -45,6 +47,7 @@ def to_events(trace):
     attach = {}          # fiber -> [j, stage]  stage: 0 add next, 1 load next, 2 cas next, 3 failed (release/sub next)
     pcb = {}             # producer fiber -> j while its callback runs
     wloads = {}          # waiter -> number of loads of the head so far
+    fload = {}           # (fiber, future) -> index in evs of that fiber's latest unclaimed load of the future's word
     began = {}           # sticky waiter -> saw its begin marker
 
     def timed_result(k, start):
@@ -100,8 +103,13 @@ def to_events(trace):
                 else:
                     raise ValueError("state of future %d destroyed by %s" % (j, who))
             elif a[0] == "ready":
-                evs.append("EFReady %s %s" % (a[1], "true" if a[2] == "1" else "false"))
-                obs["readys"].append((int(a[1]), int(a[2])))
+                # Ready() is the load of the future's word by this fiber that precedes the marker; with the switch
+                # offered after an operation other fibers' operations can lie between the two
+                at = fload.pop((who, int(a[1])), None)
+                if at is None:
+                    raise ValueError("Ready() marker without a preceding load of the word by the same fiber: " + tok)
+                evs[at] = "EFReady %s %s" % (a[1], "true" if a[2] == "1" else "false")
+                obs["readys"].append((at, int(a[1]), int(a[2])))
             elif a[0] == "final":
                 evs.append("EFGet %s" % a[1])
                 obs["finals"].append((int(a[1]), a[2]))
@@ -179,7 +187,10 @@ def to_events(trace):
                 if who in attach and attach[who][0] == j and attach[who][1] == 1:
                     evs.append("EFLd %d %s" % (j, FW[val]))
                     attach[who][1] = 2 if val == "E" else 3
-                # other loads: Ready() (covered by its marker), ~ResultCore's assertion, the final Get
+                else:
+                    # Ready() (claimed by the marker that follows in this fiber), ~ResultCore's assertion, the final Get
+                    fload[(who, j)] = len(evs)
+                    evs.append(None)
             else:
                 raise ValueError("unexpected operation on a future's word: " + tok)
         elif loc == "m":
@@ -195,7 +206,9 @@ def to_events(trace):
             evs.append("%s %d %d" % ("EDecW" if wk == k else "EDecE", k, int(val) + 1))
         else:
             raise ValueError("unknown location in " + tok)
-    return n0, wkinds, fkinds, evs, obs
+    # Ready() answers in the order of the loads (the order in which the model records them), not of the markers
+    obs["readys"] = [(j, b) for _, j, b in sorted(obs["readys"])]
+    return n0, wkinds, fkinds, [e for e in evs if e is not None], obs
 
 
 def nontrivial(trace):
@@ -309,7 +322,20 @@ def plan(ck):
             jobs.append(dict(name=n + " asan", args=["--mode", "dfs", "--exact", n, "--max", "150000"], cfg="FA", exhaustive=False))
         jobs.append(dict(name="mix asan", args=["--mode", "random", "--only", "mix/", "--max", "1500", "--seed", str(ck.seed + 1),
                                                 "--param", "mixes=30", "--param", "pseed=%d" % (ck.seed + 1)], cfg="FA", exhaustive=False))
-    return jobs
+    # where the explorer offers a fiber switch around a wrapped operation: every DFS job runs with the switch before the
+    # operation and once more with the switch after it (a fiber stopped right after its CAS / exchange / fetch_sub, before
+    # the plain code that follows); random walks offer both.  Quick tier: the after-pass skips the two secondary deadlines
+    # of the timed race (the same code path as wg/timed_vs_done/dl=10, which has it).
+    quick_skip_after = ("wg/timed_vs_done/dl=30", "wg/until_vs_done/dl=20")
+    out = []
+    for j in jobs:
+        if "dfs" in j["args"]:
+            out.append(dict(j, ya="before", args=j["args"] + ["--yield-at", "before"]))
+            if not quick or j["name"] not in quick_skip_after:
+                out.append(dict(j, ya="after", name=j["name"] + " after", args=j["args"] + ["--yield-at", "after"]))
+        else:
+            out.append(dict(j, ya="both", args=j["args"] + ["--yield-at", "both"]))
+    return out
 
 
 def main(ck):
@@ -350,13 +376,14 @@ def main(ck):
                                     key="crash:" + (asan.group(1) if asan else str(rc)),
                                     replay=dict(harness="h_c16", config=j["cfg"], only=only, choices=m.group(2) if m else None,
                                                 params=[a for a in j["args"] if a.startswith(("mixes=", "pseed="))],
-                                                weak=("--weak" in j["args"]) and j["args"][j["args"].index("--weak") + 1])))
+                                                weak=("--weak" in j["args"]) and j["args"][j["args"].index("--weak") + 1],
+                                                yield_at=j["ya"])))
             for r in rows:
                 r["_job"] = j
                 (heads if "mode" in r else traces).append(r)
     ck.cov["evaluations"] = sum(h["executions"] for h in heads)
     ck.cov["scenarios"] = len(heads)
-    ck.cov["exhaustive_scenarios"] = sorted(h["scenario"] + (" +weak" if "weak" in h["_job"]["name"] else "")
+    ck.cov["exhaustive_scenarios"] = sorted(h["scenario"] + (" +weak" if "weak" in h["_job"]["name"] else "") + " @" + h["_job"]["ya"]
                                             for h in heads if h["exhaustive"] and h["_job"]["exhaustive"])
     # "exhaustive" is about the whole exploration: it also contains seeded random walks (and, in the thorough tier,
     # capped DFS runs), so it is False; the small configurations listed in exhaustive_scenarios were explored completely
@@ -365,7 +392,9 @@ def main(ck):
     if not ck.cov["exhaustive_small_configs"]:
         ck.broken.append(dict(name="exploration budget: a configuration meant to be explored exhaustively was cut",
                               detail=str([h["scenario"] for h in heads if h["_job"]["exhaustive"] and not h["exhaustive"]])))
-    ck.cov["executions_by_scenario"] = {(h["scenario"][:40] + "|" + h["_job"]["name"][-5:]): h["executions"] for h in heads if not h["scenario"].startswith("mix/")}
+    ck.cov["executions_by_scenario"] = {(h["scenario"][:40] + ("|weak" if "weak" in h["_job"]["name"] else "") + ("|asan" if h["_job"]["cfg"] == "FA" else "") + "@" + h["_job"]["ya"]): h["executions"]
+                                        for h in heads if not h["scenario"].startswith("mix/")}
+    ck.cov["executions_by_yield_at"] = {ya: sum(h["executions"] for h in heads if h["_job"]["ya"] == ya) for ya in ("before", "after", "both")}
     ck.cov["random_executions"] = sum(h["executions"] for h in heads if h["scenario"].startswith("mix/"))
     for t in traces:
         if t["fail"]:
@@ -374,7 +403,7 @@ def main(ck):
                                 replay=dict(harness="h_c16", config=t["_job"]["cfg"], scenario=t["scenario"], choices=t["choices"],
                                             params=[a for a in t["_job"]["args"] if a.startswith(("mixes=", "pseed="))],
                                             weak=("--weak" in t["_job"]["args"]) and t["_job"]["args"][t["_job"]["args"].index("--weak") + 1],
-                                            trace=t["trace"])))
+                                            yield_at=t["_job"]["ya"], trace=t["trace"])))
     # ---- correspondence: replay every distinct trace through the model inside Coq
     cases, metas, seen = [], [], {}
     for t in traces:
@@ -420,8 +449,9 @@ def main(ck):
     ck.cov["distinct_traces"] = len(traces)
     ck.cov["distinct_model_event_sequences"] = len(cases)
     ck.cov["distinct_nontrivial"] = len(nontriv)
-    ck.cov["rule"] = ("exhaustive DFS over every scheduling decision of the FIBER backend (switch before each wrapped atomic/mutex/"
-                      "condvar operation, next fiber, notified waiter; optionally spurious weak-CAS failures) for the small programs "
+    ck.cov["rule"] = ("exhaustive DFS over every scheduling decision of the FIBER backend (fiber switch offered before each wrapped atomic/"
+                      "mutex/condvar operation and, in a second pass, after each one; next fiber, notified waiter; optionally spurious "
+                      "weak-CAS failures; random walks offer the switch at both places) for the small programs "
                       "(one waiter of each kind registering vs the final Done / Set, a timed waiter vs two Done fibers for several "
                       "deadlines, two concurrent pushers, Attach / Consume vs the producer), seeded random walks for 3 workers + 3 "
                       "waiters of mixed kinds + up to 2 futures; traces are deduplicated by their sequence of operations on the head "
@@ -454,6 +484,7 @@ def replay(ck, path):
         args += ["--param", p]
     if rp.get("weak"):
         args += ["--weak", str(rp["weak"])]
+    args += ["--yield-at", rp.get("yield_at") or "before"]
     rows, out, err, rc = runner.run_harness(exe, args)
     print(out)
     bad = any(r.get("fail") for r in rows if "trace" in r)
